@@ -7,6 +7,7 @@ package environment
 import (
 	"errors"
 	"strconv"
+	"time"
 
 	"github.com/AliceO2Group/Control/core/workflow/callable"
 	vrt "github.com/AliceO2Group/Control/zz_vrt"
@@ -182,7 +183,15 @@ func HarnessRunBracket() {
 	case 3:
 		vrt.Assert(env.TryTransition(start) == nil, "start-succeeds")
 		vrt.Assert(env.TryTransition(stop) != nil && env.CurrentState() == "RUNNING", "failed-stop-stays-running")
+		if !vrt.Symbolic() {
+			time.Sleep(3 * time.Millisecond) // natively the clock has to move for a second stamp to differ from the first
+		}
+		before := c10Take(env, "after-failed-stop")
 		vrt.Assert(env.TryTransition(goErr) == nil && env.CurrentState() == "ERROR", "go-error-after-failed-stop")
+		after := c10Take(env, "after-go-error")
+		if before.ts[2] != "" {
+			vrt.Assert(after.ts[2] == before.ts[2], "run-timestamp-set-at-most-once")
+		}
 		endSet()
 		c10CheckRun(snaps, 0, rn1)
 		vrt.Reach("h3")
